@@ -171,8 +171,7 @@ func verifLemmaMaxBodyTight(c *channelInstance, m *Message, chunkSize int, chunk
 //@   props C11
 //@   frame_only
 //@   requires c != nil && c.sc != nil && c.sc.cfg != nil && c.algo != nil && m != nil && m.MessageHeader != nil
-//@   assigns m.MessageHeader.Header.MessageSize, elems(b), c.algo.signature, c.algo.encrypt
-//@   loop 0 invariant arr(b) == arr(old(b)) || fresh(b)
+//@   assigns allbut channelInstance SecureChannel Config Message MessageHeader SequenceHeader
 //@   loop 0 invariant c != nil && c.algo != nil && m != nil && m.MessageHeader != nil
 
 //@ func (*channelInstance).newMessage
